@@ -59,6 +59,9 @@ func (p *PauseController) UnmarshalJSON(data []byte) error {
 	case PauseStateRunning:
 		p.Resume()
 	case PauseStatePaused:
+		// The state was just decoded as paused, so Pause will not see a
+		// transition into it; create the channel that Resume and Stop close.
+		p.pauseChannel = make(chan bool)
 		p.Pause(p.FailAfter)
 	case PauseStateStopped:
 		p.Stop(p.StopMessage)
